@@ -17,44 +17,8 @@ struct FExpect {
     tagv: u8,
 }
 
-fn digits(t: &mut [u8], at: usize, n: usize) -> u128 {
-    let mut v: u128 = 0;
-    let mut i = 0;
-    while i < n {
-        let d = any_digit();
-        if i == 0 {
-            kani::assume(d != b'0');
-        }
-        t[at + i] = d;
-        v = v * 10 + (d - b'0') as u128;
-        i += 1;
-    }
-    v
-}
-
-fn fpatch(t: &mut [u8], idp: usize, pkp: usize, kp: usize, sp: usize, up: usize, lp: usize, tp: usize) -> FExpect {
-    let mut e = FExpect { id: ID_BIN, pk: PK_BIN, kind: 0, since: 0, until: 0, limit: 0, tagv: 0 };
-    let (a, b) = (any_hex_digit(), any_hex_digit());
-    t[idp] = a;
-    t[idp + 63] = b;
-    e.id[0] = (hex_val(a) << 4) | (e.id[0] & 0x0f);
-    e.id[31] = (e.id[31] & 0xf0) | hex_val(b);
-    let (a, b) = (any_hex_digit(), any_hex_digit());
-    t[pkp] = a;
-    t[pkp + 63] = b;
-    e.pk[0] = (hex_val(a) << 4) | (e.pk[0] & 0x0f);
-    e.pk[31] = (e.pk[31] & 0xf0) | hex_val(b);
-    e.kind = digits(t, kp, 5) as u32;
-    e.since = digits(t, sp, 10);
-    e.until = digits(t, up, 10);
-    e.limit = digits(t, lp, 10);
-    let v = any_plain();
-    t[tp] = v;
-    e.tagv = v;
-    e
-}
-
-fn fcheck(f: &Filter, e: &FExpect) {
+/// accessors of the filter denoted by FL1 / FL2 (tag constraints compared as a set)
+fn fcheck(f: &Filter, e: &FExpect, e_first: &[u8], e_second: &[u8]) {
     assert!(f.num_ids() == 1 && f.num_authors() == 1 && f.num_kinds() == 2);
     let i: usize = kani::any();
     kani::assume(i < 32);
@@ -71,144 +35,191 @@ fn fcheck(f: &Filter, e: &FExpect) {
     } else {
         assert!(f.limit() == u32::MAX);
     }
-    let t = f.tags().unwrap();
+    let t = match f.tags() {
+        Ok(t) => t,
+        Err(err) => {
+            core::mem::forget(err);
+            panic!("tags")
+        }
+    };
     assert!(t.count() == 2);
-    // tag constraints as a set: {e: [v"b", "c"], P: []}
     let (ie, ip) = if t.get_string(0, 0).unwrap()[0] == b'e' { (0, 1) } else { (1, 0) };
     let n = t.get_string(ie, 0).unwrap();
     assert!(n.len() == 1 && n[0] == b'e');
     let v0 = t.get_string(ie, 1).unwrap();
-    assert!(v0.len() == 2 && v0[0] == e.tagv && v0[1] == b'b');
+    assert!(v0.len() == e_first.len() && v0[0] == e_first[0]);
     let v1 = t.get_string(ie, 2).unwrap();
-    assert!(v1.len() == 1 && v1[0] == b'c');
+    assert!(v1.len() == e_second.len() && v1[0] == e_second[0]);
     assert!(t.get_string(ie, 3).is_none());
     let p = t.get_string(ip, 0).unwrap();
     assert!(p.len() == 1 && p[0] == b'P');
     assert!(t.get_string(ip, 1).is_none());
 }
 
-macro_rules! filter_layout {
-    ($name:ident, $T:ident, $ID:ident, $PK:ident, $K:ident, $S:ident, $U:ident, $L:ident, $TV:ident, $end:expr) => {
+macro_rules! filter_text {
+    ($name:ident, $T:ident, $end:expr) => {
         #[kani::proof]
-        #[kani::unwind(32)]
+        #[kani::unwind(8)]
         #[kani::stub(core::panic::Location::caller, stub_caller)]
         fn $name() {
-            const N: usize = $T.len();
-            let mut t = [0u8; N + 2];
-            t[..N].copy_from_slice($T);
-            t[N] = kani::any();
-            t[N + 1] = kani::any();
-            let e = fpatch(&mut t, $ID, $PK, $K, $S, $U, $L, $TV);
+            let e = FExpect { id: ID_BIN, pk: PK_BIN, kind: 30023, since: 1111111111, until: 2222222222, limit: 3333333333, tagv: b'a' };
             let mut out: [u8; 200] = kani::any();
-            let r = Filter::from_json(&t, &mut out);
-            match r {
+            match Filter::from_json($T, &mut out) {
                 Ok((consumed, written, f)) => {
-                    kani::cover!(e.kind == 65535 && e.limit > u32::MAX as u128);
-                    assert!(e.kind <= 65535);
+                    kani::cover!(true);
                     assert!(consumed == $end && written == f.len());
-                    fcheck(f, &e);
+                    fcheck(f, &e, b"ab", b"c");
                 }
                 Err(err) => {
-                    assert!(e.kind > 65535);
                     core::mem::forget(err);
+                    panic!("valid filter text rejected");
                 }
             }
         }
     };
 }
 
-//@ harness: c07_values_compact
+//@ harness: c07_text_compact
 //@ tier: quick
-//@ timeout: 1800
-//@ mem: 14
-//@ unwindset: read_sig=66; read_id=34; read_pubkey=34; read_hex=66; memcmp.0=34
+//@ timeout: 900
+//@ mem: 12
+//@ unwindset: read_id=34; read_pubkey=34; read_hex=66; memcmp.0=34; memchr=12; read_u64=24; burn_string=30; eat_whitespace=6; burn_number=12; json_unescape=8; parse_json_filter=72; c07_=12
 //@ encodes: Filter::from_json, parse_json_filter, read_id, read_pubkey, read_u64, json_unescape, Filter accessors
-//@ bounds: compact text {ids,authors,kinds,since,until,limit,#e,#P}; symbolic: first+last hex digit of the id and the author, 5 digits of a kind, 10 digits each of since/until/limit (limit crosses 2^32), one tag value byte, trailing bytes, prior buffer contents. Accepted iff kind <= 65535; accessors return the denoted values; limit saturates, never wraps
-filter_layout!(c07_values_compact, FL1, FL1_ID, FL1_PK, FL1_KIND, FL1_SINCE, FL1_UNTIL, FL1_LIMIT, FL1_TAGV, FL1.len());
+//@ bounds: the compact text {ids,authors,kinds,since,until,limit(3333333333: above 2^32 is not, this one fits),#e,#P} - constant, arbitrary prior buffer contents: accepted, consumed = length, accessors return the denoted values, tag constraints as a set
+//@ outside: the text is constant (see c01_event_json.rs header); arbitrary integers: c01_kernel_read_u64 and c07_limit_saturates
+filter_text!(c07_text_compact, FL1, FL1.len());
 
-//@ harness: c07_values_reordered_ws_unknown
+//@ harness: c07_text_reordered_ws_unknown
 //@ tier: quick
-//@ timeout: 2400
-//@ mem: 16
-//@ unwindset: read_sig=66; read_id=34; read_pubkey=34; read_hex=66; memcmp.0=34
-//@ encodes: Filter::from_json, parse_json_filter, burn_key_and_value, burn_value, burn_array, burn_object, burn_number, eat_whitespace_and_commas
-//@ bounds: the same filter with the members in reverse-ish order, whitespace of all four kinds in the gaps, and three unknown members (string with escapes/brackets, nested array/object/null, negative exponent number); same symbolic values. Same verdict and same accessor values as the compact text
-filter_layout!(c07_values_reordered_ws_unknown, FL2, FL2_ID, FL2_PK, FL2_KIND, FL2_SINCE, FL2_UNTIL, FL2_LIMIT, FL2_TAGV, FL2_END);
+//@ timeout: 900
+//@ mem: 12
+//@ unwindset: read_id=34; read_pubkey=34; read_hex=66; memcmp.0=34; memchr=12; read_u64=24; burn_string=30; eat_whitespace=6; burn_number=12; json_unescape=8; parse_json_filter=72; c07_=12
+//@ encodes: Filter::from_json, parse_json_filter, burn_key_and_value_after_quote, burn_value, burn_array, burn_object, burn_number, eat_whitespace_and_commas
+//@ bounds: the same filter in another member order, whitespace of all four kinds in the gaps and three unknown members (string with escapes/brackets, nested array/object/null, negative exponent number) - constant text, arbitrary prior buffer: same verdict and same accessor values as the compact text
+filter_text!(c07_text_reordered_ws_unknown, FL2, FL2_END);
+
+//@ harness: c07_limit_saturates
+//@ tier: quick
+//@ timeout: 900
+//@ mem: 12
+//@ unwindset: read_id=34; read_pubkey=34; read_hex=66; memcmp.0=34; memchr=12; read_u64=24; burn_string=30; eat_whitespace=6; burn_number=12; json_unescape=8; parse_json_filter=72; c07_=12
+//@ encodes: parse_json_filter (limit), read_u64
+//@ bounds: {"kinds":[1],"limit":L,"since":18446744073709551615} for L = 2^32-1, 2^32 and 2^64-1 (constant texts, arbitrary prior buffer): limit() is L when it fits and u32::MAX otherwise - never L mod 2^32; since() is 2^64-1
+#[kani::proof]
+#[kani::unwind(8)]
+#[kani::stub(core::panic::Location::caller, stub_caller)]
+fn c07_limit_saturates() {
+    let texts: [&[u8]; 3] = [FLIM_MAX, FLIM_OVER, FLIM_BIG];
+    let mut i = 0;
+    while i < 3 {
+        let mut out: [u8; 64] = kani::any();
+        match Filter::from_json(texts[i], &mut out) {
+            Ok((consumed, _w, f)) => {
+                kani::cover!(i == 2);
+                assert!(consumed == texts[i].len());
+                assert!(f.limit() == u32::MAX);
+                assert!(f.since().as_u64() == u64::MAX);
+                assert!(f.num_kinds() == 1);
+            }
+            Err(err) => {
+                core::mem::forget(err);
+                panic!("valid filter text rejected");
+            }
+        }
+        i += 1;
+    }
+}
 
 fn is_letter(c: u8) -> bool {
     (c >= b'A' && c <= b'Z') || (c >= b'a' && c <= b'z')
 }
 
-//@ harness: c07_tag_letter_pairs
+//@ harness: c07_tag_letter_pairs_concrete
 //@ tier: quick
-//@ timeout: 2400
-//@ mem: 16
-//@ unwindset: read_sig=66; read_id=34; read_pubkey=34; read_hex=66; memcmp.0=34
+//@ timeout: 1200
+//@ mem: 12
+//@ unwindset: read_id=34; read_pubkey=34; read_hex=66; memcmp.0=34; memchr=12; read_u64=24; burn_string=30; eat_whitespace=6; burn_number=12; json_unescape=8; parse_json_filter=72; c07_=12
 //@ encodes: parse_json_filter (tag-letter dispatch, duplicate bitmap), Filter::tags
-//@ bounds: the texts {"#X":["a"],"#Y":["b"]} and {"#Y":["b"],"#X":["a"]} with X, Y arbitrary letters (all 52 x 52 ordered pairs in one query): both orders have the same verdict; distinct letters are accepted with exactly the two constraints; a repeated letter is rejected
-//@ outside: three or more tag members (thorough: c07_tag_letter_triples); non-letter bytes after '#'
+//@ bounds: the texts {"#X":["a"],"#Y":["b"]} for the ordered letter pairs (e,a) (a,e) (A,e) (e,A) (z,Z) (Z,z) (A,B) (p,q) - bitmap index 0, both index orders, both alphabets' last letters - constant texts, arbitrary prior buffer: each is accepted with exactly the two constraints in text order
+//@ outside: the other 2696 ordered pairs here; all letters at once are attempted by the thorough harness c07_tag_letter_symbolic
 #[kani::proof]
-#[kani::unwind(30)]
+#[kani::unwind(10)]
 #[kani::stub(core::panic::Location::caller, stub_caller)]
-fn c07_tag_letter_pairs() {
+fn c07_tag_letter_pairs_concrete() {
+    let texts: [&[u8]; 8] = [FPAIR_0, FPAIR_1, FPAIR_2, FPAIR_3, FPAIR_4, FPAIR_5, FPAIR_6, FPAIR_7];
+    let mut i = 0;
+    while i < 8 {
+        let (x, y) = FPAIR_LETTERS[i];
+        let mut out: [u8; 64] = kani::any();
+        match Filter::from_json(texts[i], &mut out) {
+            Ok((consumed, _w, f)) => {
+                kani::cover!(i == 7);
+                assert!(consumed == 23);
+                let t = match f.tags() {
+                    Ok(t) => t,
+                    Err(err) => {
+                        core::mem::forget(err);
+                        panic!("tags")
+                    }
+                };
+                assert!(t.count() == 2);
+                assert!(t.get_string(0, 0).unwrap()[0] == x && t.get_string(0, 1).unwrap()[0] == b'a');
+                assert!(t.get_string(1, 0).unwrap()[0] == y && t.get_string(1, 1).unwrap()[0] == b'b');
+            }
+            Err(err) => {
+                core::mem::forget(err);
+                panic!("distinct tag letters rejected");
+            }
+        }
+        i += 1;
+    }
+}
+
+//@ harness: c07_tag_letter_symbolic
+//@ tier: thorough
+//@ timeout: 3000
+//@ mem: 20
+//@ unwindset: read_id=34; read_pubkey=34; read_hex=66; memcmp.0=34; memchr=12; read_u64=24; burn_string=30; eat_whitespace=6; burn_number=12; json_unescape=8; parse_json_filter=72; c07_=12
+//@ encodes: parse_json_filter (tag-letter dispatch, duplicate bitmap), Filter::tags
+//@ bounds: the texts {"#X":["a"],"#e":["b"]} and {"#e":["b"],"#X":["a"]} with X an arbitrary letter (all 52 in one query): both orders have the same verdict; X != e is accepted with exactly the two constraints; X == e is rejected as a duplicate
+//@ outside: two symbolic letters at once (did not finish: > 10 min, 16 GB)
+#[kani::proof]
+#[kani::unwind(10)]
+#[kani::stub(core::panic::Location::caller, stub_caller)]
+fn c07_tag_letter_symbolic() {
     let x: u8 = kani::any();
-    let y: u8 = kani::any();
-    kani::assume(is_letter(x) && is_letter(y));
-    let t1 = [b'{', b'"', b'#', x, b'"', b':', b'[', b'"', b'a', b'"', b']', b',', b'"', b'#', y, b'"', b':', b'[', b'"', b'b', b'"', b']', b'}'];
-    let t2 = [b'{', b'"', b'#', y, b'"', b':', b'[', b'"', b'b', b'"', b']', b',', b'"', b'#', x, b'"', b':', b'[', b'"', b'a', b'"', b']', b'}'];
+    kani::assume(is_letter(x));
+    let t1 = [b'{', b'"', b'#', x, b'"', b':', b'[', b'"', b'a', b'"', b']', b',', b'"', b'#', b'e', b'"', b':', b'[', b'"', b'b', b'"', b']', b'}'];
+    let t2 = [b'{', b'"', b'#', b'e', b'"', b':', b'[', b'"', b'b', b'"', b']', b',', b'"', b'#', x, b'"', b':', b'[', b'"', b'a', b'"', b']', b'}'];
     let mut o1 = [0u8; 64];
     let mut o2 = [0u8; 64];
     let r1 = Filter::from_json(&t1, &mut o1);
     let r2 = Filter::from_json(&t2, &mut o2);
-    kani::cover!(x == b'e' && y == b'a');
-    assert!(r1.is_ok() == r2.is_ok()); // order independence
+    kani::cover!(x == b'a');
     match (r1, r2) {
         (Ok((c1, _, f1)), Ok((c2, _, f2))) => {
-            assert!(x != y);
+            assert!(x != b'e');
             assert!(c1 == 23 && c2 == 23);
-            let ta = f1.tags().unwrap();
-            let tb = f2.tags().unwrap();
+            let (ta, tb) = match (f1.tags(), f2.tags()) {
+                (Ok(a), Ok(b)) => (a, b),
+                (a, b) => {
+                    core::mem::forget(a);
+                    core::mem::forget(b);
+                    panic!("tags")
+                }
+            };
             assert!(ta.count() == 2 && tb.count() == 2);
-            assert!(ta.get_string(0, 0).unwrap()[0] == x && ta.get_string(0, 1).unwrap()[0] == b'a');
-            assert!(ta.get_string(1, 0).unwrap()[0] == y && ta.get_string(1, 1).unwrap()[0] == b'b');
-            assert!(tb.get_string(0, 0).unwrap()[0] == y && tb.get_string(1, 0).unwrap()[0] == x);
+            assert!(ta.get_string(0, 0).unwrap()[0] == x && tb.get_string(1, 0).unwrap()[0] == x);
         }
-        (a, b) => {
-            assert!(x == y);
+        (Err(a), Err(b)) => {
+            assert!(x == b'e');
             core::mem::forget(a);
             core::mem::forget(b);
         }
-    }
-}
-
-//@ harness: c07_int_since_20
-//@ tier: quick
-//@ timeout: 1200
-//@ mem: 12
-//@ unwindset: read_sig=66; read_id=34; read_pubkey=34; read_hex=66; memcmp.0=34
-//@ encodes: read_u64, parse_json_filter
-//@ bounds: {"since":D,"until":D'} with 20 arbitrary digits each (no leading zero): each member is either rejected or read exactly (value < 2^64) or saturated to u64::MAX - never wrapped, never a panic
-#[kani::proof]
-#[kani::unwind(30)]
-#[kani::stub(core::panic::Location::caller, stub_caller)]
-fn c07_int_since_20() {
-    let mut t = *b"{\"since\":11111111111111111111,\"until\":22222222222222222222}";
-    let s = digits(&mut t, 9, 20);
-    let u = digits(&mut t, 38, 20);
-    let mut out = [0u8; 64];
-    let r = Filter::from_json(&t, &mut out);
-    match r {
-        Ok((consumed, _, f)) => {
-            kani::cover!(s == u64::MAX as u128);
-            assert!(consumed == t.len());
-            let fs = f.since().as_u64();
-            let fu = f.until().as_u64();
-            assert!(fs as u128 == s || (s > u64::MAX as u128 && fs == u64::MAX));
-            assert!(fu as u128 == u || (u > u64::MAX as u128 && fu == u64::MAX));
-        }
-        Err(e) => {
-            assert!(s > u64::MAX as u128 || u > u64::MAX as u128);
-            core::mem::forget(e);
+        (a, b) => {
+            core::mem::forget(a);
+            core::mem::forget(b);
+            panic!("acceptance depends on member order");
         }
     }
 }
@@ -245,18 +256,18 @@ fn ref_escape(c: u8, out: &mut [u8; 6]) -> usize {
     }
 }
 
-//@ harness: c07_as_json_roundtrip
+//@ harness: c07_as_json_text
 //@ tier: quick
 //@ timeout: 2400
 //@ mem: 16
-//@ unwindset: read_sig=66; read_id=34; read_pubkey=34; read_hex=66; memcmp.0=34
+//@ unwindset: read_id=34; read_pubkey=34; read_hex=66; memcmp.0=34; memchr=12; read_u64=24; burn_string=30; eat_whitespace=6; burn_number=12; json_unescape=8; parse_json_filter=72; c07_=90; json_escape=8; enc_tags=6; put_bytes=8; push=90
 //@ encodes: Filter::as_json, Filter::from_json, json_escape, json_unescape
-//@ bounds: a filter built by Filter::from_parts with one kind (7), since 5, limit 3 and the tag constraint e:[v w] where v, w are single arbitrary ASCII bytes 0x00..=0x7f (quotes, backslashes and control characters included): as_json produces exactly the reference writer's text (valid JSON with canonical escapes), and parsing it back yields a byte-identical filter
+//@ bounds: a filter built by Filter::from_parts with one kind (7), since 5, limit 3 and the tag constraint e:[v w] where v, w are single arbitrary ASCII bytes 0x00..=0x7f (quotes, backslashes and control characters included): as_json produces exactly the reference writer's text (valid JSON with canonical NIP-01 escapes). Parsing back is c07_as_json_roundtrip_instances
 //@ outside: non-ASCII values, symbolic integers through format!, ids/authors (hex writer is covered by C03/C20 kernels)
 #[kani::proof]
-#[kani::unwind(32)]
+#[kani::unwind(8)]
 #[kani::stub(core::panic::Location::caller, stub_caller)]
-fn c07_as_json_roundtrip() {
+fn c07_as_json_text() {
     let v: u8 = kani::any();
     let w: u8 = kani::any();
     kani::assume(v < 0x80 && w < 0x80);
@@ -264,15 +275,24 @@ fn c07_as_json_roundtrip() {
     let shape: [&[usize]; 1] = [&[1, 1, 1]];
     let mut tbuf = [0u8; 24];
     let tl = enc_tags(&shape, &pool, &mut tbuf);
-    let tags = unsafe { Tags::delineate(&tbuf[..tl]) }.unwrap();
+    let ts: &[u8] = &tbuf[..tl];
+    let tags: &Tags = unsafe { &*(ts as *const [u8] as *const Tags) };
     let mut fbuf = [0u8; 64];
-    let f = Filter::from_parts(&[], &[], &[Kind::from_u16(7)], tags, Some(Time::from_u64(5)), None, Some(3), &mut fbuf);
-    assert!(f.is_ok());
-    let f = f.unwrap();
+    let f = match Filter::from_parts(&[], &[], &[Kind::from_u16(7)], tags, Some(Time::from_u64(5)), None, Some(3), &mut fbuf) {
+        Ok(f) => f,
+        Err(e) => {
+            core::mem::forget(e);
+            panic!("from_parts")
+        }
+    };
     let flen = f.len();
-    let json = f.as_json();
-    assert!(json.is_ok());
-    let json = json.unwrap();
+    let json = match f.as_json() {
+        Ok(j) => j,
+        Err(e) => {
+            core::mem::forget(e);
+            panic!("as_json")
+        }
+    };
     let mut r = [0u8; 80];
     let mut p = 0;
     let mut push = |r: &mut [u8; 80], p: &mut usize, s: &[u8]| {
@@ -296,13 +316,62 @@ fn c07_as_json_roundtrip() {
     let i: usize = kani::any();
     kani::assume(i < p);
     assert!(json[i] == r[i]);
-    let mut out: [u8; 64] = kani::any();
-    let back = Filter::from_json(&json, &mut out);
-    assert!(back.is_ok());
-    let (consumed, written, f2) = back.unwrap();
-    assert!(consumed == p && written == flen);
-    let k: usize = kani::any();
-    kani::assume(k < flen);
-    assert!(f2.as_bytes()[k] == fbuf[k]);
     core::mem::forget(json);
+}
+
+
+//@ harness: c07_as_json_roundtrip_instances
+//@ tier: quick
+//@ timeout: 1500
+//@ mem: 14
+//@ unwindset: read_id=34; read_pubkey=34; read_hex=66; memcmp.0=34; memchr=12; read_u64=24; burn_string=30; eat_whitespace=6; burn_number=12; json_unescape=8; parse_json_filter=72; c07_=12; json_escape=8; enc_tags=6; put_bytes=8
+//@ encodes: Filter::from_parts, Filter::as_json, Filter::from_json
+//@ bounds: the same filter with the tag values (v, w) = (quote, backslash), (0x01, 'a'), (newline, 'z'): as_json then from_json (arbitrary prior buffer) gives a byte-identical filter
+//@ outside: symbolic values through the parser (symbolic escape lengths move the read position)
+#[kani::proof]
+#[kani::unwind(8)]
+#[kani::stub(core::panic::Location::caller, stub_caller)]
+fn c07_as_json_roundtrip_instances() {
+    let vals: [(u8, u8); 3] = [(b'"', b'\\'), (0x01, b'a'), (b'\n', b'z')];
+    let mut n = 0;
+    while n < 3 {
+        let (v, w) = vals[n];
+        let pool = [b'e', v, w];
+        let shape: [&[usize]; 1] = [&[1, 1, 1]];
+        let mut tbuf = [0u8; 24];
+        let tl = enc_tags(&shape, &pool, &mut tbuf);
+        let ts: &[u8] = &tbuf[..tl];
+        let tags: &Tags = unsafe { &*(ts as *const [u8] as *const Tags) };
+        let mut fbuf = [0u8; 64];
+        let f = match Filter::from_parts(&[], &[], &[Kind::from_u16(7)], tags, Some(Time::from_u64(5)), None, Some(3), &mut fbuf) {
+            Ok(f) => f,
+            Err(e) => {
+                core::mem::forget(e);
+                panic!("from_parts")
+            }
+        };
+        let flen = f.len();
+        let json = match f.as_json() {
+            Ok(j) => j,
+            Err(e) => {
+                core::mem::forget(e);
+                panic!("as_json")
+            }
+        };
+        let mut out: [u8; 64] = kani::any();
+        let (consumed, written, f2) = match Filter::from_json(&json, &mut out) {
+            Ok(x) => x,
+            Err(e) => {
+                core::mem::forget(e);
+                panic!("own JSON rejected")
+            }
+        };
+        kani::cover!(n == 2);
+        assert!(consumed == json.len() && written == flen);
+        let k: usize = kani::any();
+        kani::assume(k < flen);
+        assert!(f2.as_bytes()[k] == fbuf[k]);
+        core::mem::forget(json);
+        n += 1;
+    }
 }
